@@ -902,7 +902,8 @@ C16_PAIR = ('{"assignCopy", "assignMove", "swap", "freeSwap", "eq", "ne", "lt", 
 C16_EXTRA1 = '{"ctorDefault", "ctorCountVal", "destroy", "pushBack", "popBack", "popBackVal", "appendN", "appendNVal", "appendRange", "appendIlist", "reserve"}'
 C16_EXTRA2 = '{"ctorDefault", "ctorCountVal", "destroy", "pushBack", "popBack", "clear", "reserve", "shrinkToFit", "swap2", "eq"}'
 C16_TYPES = {1: ('vector', 0, 'u32'), 2: ('small', 2, 'u32'), 3: ('fixed', 6), 4: ('vector', 0, 'u32'), 5: ('small', 3, 'u32'),
-             6: ('small', 2, 'u32')}     # 6: element larger than a pointer
+             6: ('small', 2, 'u32'),     # 6: element larger than a pointer
+             7: ('vector', 0, 'u32')}    # 7: raw signed char elements, walks with a negative value
 
 
 C16S_COMMON = ('{"ctorDefault", "ctorRange", "ctorIlist", "destroy", "insert", "insertRv", "emplace", "insertHint", "insertHintRv", "emplaceHint", '
@@ -918,7 +919,7 @@ C16S_TYPES = {1: ('flat', 'Cmp'), 2: ('small', 'Cmp', 2), 3: ('flat', 'Cmp', 0, 
 def suite_matrix(tier, seed):
     def compute(d):
         import itertools
-        types = [3, 4, 6] if tier == 'quick' else [1, 2, 3, 4, 5, 6]
+        types = [3, 4, 6, 7] if tier == 'quick' else [1, 2, 3, 4, 5, 6, 7]
         if tier == 'quick':
             cells = [('g++', 'c++11', False, False, '-O0'), ('g++', 'c++14', True, True, '-O2'), ('g++', 'c++17', False, True, '-O2'),
                      ('g++', 'c++20', True, False, '-O0'), ('g++', 'c++11', True, True, '-O2'), ('g++', 'c++20', False, True, '-O0')]
@@ -932,8 +933,9 @@ def suite_matrix(tier, seed):
             sl = C16_TYPES[ty]
             c1 = ImplCfg('c16_t%d' % ty, 'TC', 'amc', [sl])
             c2 = ImplCfg('c16_p%d' % ty, 'TC', 'amc', [sl, sl])
-            p_common = dict(Vals=[1, 2], MaxLen=3, MaxCnt=2, Its=['ptr', 'input'], RLens=[0, 1, 2], Ops=C16_COMMON, WalkLen=300)
-            p_pair = dict(Vals=[1, 2], MaxLen=2, MaxCnt=1, Its=['ptr'], RLens=[0, 1], Ops=C16_PAIR, WalkLen=300, Alias=False)
+            vals = [-1, 2] if ty == 7 else [1, 2]
+            p_common = dict(Vals=vals, MaxLen=3, MaxCnt=2, Its=['ptr', 'input'], RLens=[0, 1, 2], Ops=C16_COMMON, WalkLen=300)
+            p_pair = dict(Vals=vals, MaxLen=2, MaxCnt=1, Its=['ptr'], RLens=[0, 1], Ops=C16_PAIR, WalkLen=300, Alias=False)
             p_x1 = dict(Vals=[1, 2], MaxLen=3, MaxCnt=2, Its=['ptr', 'input'], RLens=[0, 1, 2], Ops=C16_EXTRA1, WalkLen=300)
             p_x2 = dict(Vals=[1, 2], MaxLen=2, MaxCnt=1, Its=['ptr'], RLens=[0, 1], Ops=C16_EXTRA2, WalkLen=300, Alias=False)
             jobs += [(c1, p_common), (c2, p_pair), (c1, p_x1), (c2, p_x2)]
@@ -1239,7 +1241,7 @@ def suite_words(tier, seed):
 SUITE_FN = {}
 PROP_SUITES = {
     'C01': ['vec'], 'C02': ['vec', 'swap2', 'fault', 'sets', 'setfault', 'words'], 'C03': ['sets'], 'C04': ['sets'], 'C05': ['vec', 'sets', 'words'],
-    'C06': ['vec', 'swap2', 'fault', 'sets', 'setfault'], 'C07': ['vec', 'swap2', 'words'], 'C08': ['limit'], 'C09': ['fault', 'setfault', 'words'],
+    'C06': ['vec', 'swap2', 'fault', 'sets', 'setfault'], 'C07': ['vec', 'swap2', 'words'], 'C08': ['limit', 'swap2'], 'C09': ['fault', 'setfault', 'words'],
     'C10': ['vec'], 'C11': ['sets'], 'C12': ['sets', 'bigsets'], 'C13': ['swap2'], 'C14': ['vec', 'swap2', 'sets', 'static'], 'C18': ['vec', 'growth', 'swap2'],
     'C19': ['sets', 'bigsets'], 'C20': ['vec', 'sets', 'readers'], 'C15': ['memalgo'], 'C17': ['static'], 'C16': ['matrix'],
 }
